@@ -19,7 +19,14 @@ class StepLoop(asyncio.SelectorEventLoop):
         self.contexts = []  # every context passed to call_exception_handler
         self._vtime = 0.0
         self.ticks = 0
+        self.all_tasks = []  # every task ever created on this loop (asyncio.all_tasks() forgets finished ones)
         self.set_exception_handler(self._record_context)
+        self.set_task_factory(self._make_task)
+
+    def _make_task(self, loop, coro, **kwargs):
+        task = asyncio.Task(coro, loop=loop, **kwargs)
+        self.all_tasks.append(task)
+        return task
 
     # -- observation -------------------------------------------------------------------------
     def _record_context(self, _loop, context):
@@ -38,9 +45,17 @@ class StepLoop(asyncio.SelectorEventLoop):
         out = []
         for ctx in self.contexts:
             msg = ctx['message']
-            if msg.startswith('Future exception was never retrieved'):
+            if 'exception was never retrieved' in msg:
+                # reported from __del__, i.e. whenever the object happens to be collected: failed tasks are
+                # reported deterministically below instead, unretrieved future exceptions are not judged
                 continue
             out.append(ctx)
+        for task in self.all_tasks:
+            if getattr(task, '_pv_owned', False):
+                continue  # the harness's own task running step_until_terminated(): judged through views()
+            if task.done() and not task.cancelled() and task.exception() is not None:
+                exc = task.exception()
+                out.append({'message': 'Task failed: ' + repr(task.get_coro())[:60], 'exception': exc, 'exc_type': type(exc).__name__, 'exc_str': str(exc)[:200]})
         return out
 
     # -- virtual clock -----------------------------------------------------------------------
